@@ -114,7 +114,14 @@ func HarnessC13Files() {
 	page := "@use(\"~main\")@insert(\"r\")P@component(\"~card\", {t: 1})@end"
 	var wantPath string
 	runtime := false
-	switch vChoice("fault", 6) {
+	lineOnly := false
+	switch vChoice("fault", 8) {
+	case 6: // run-time fault inside the component file: the line is that of the component file (path not asserted)
+		comp = lead + "{{ undefinedName }}"
+		runtime, lineOnly = true, true
+	case 7: // run-time fault inside the layout file
+		layout = lead + "{{ 1 / 0 }}[@reserve(\"r\")]"
+		runtime, lineOnly = true, true
 	case 0: // undefined insert in the page
 		page = "@use(\"~main\")" + lead + "@insert(\"zz\", 1)"
 		wantPath = cwd + "/templates/page.tw"
@@ -145,7 +152,9 @@ func HarnessC13Files() {
 		_, ferr := tpl.String("page", nil)
 		vAssert(ferr != nil, "run-time-fault-is-reported")
 		vAssert(ferr.Line() == line, "reported-line-is-the-line-of-the-construct")
-		vAssert(ferr.Filepath() == wantPath, "reported-path-is-the-absolute-path-of-the-page")
+		if !lineOnly {
+			vAssert(ferr.Filepath() == wantPath, "reported-path-is-the-absolute-path-of-the-page")
+		}
 		return
 	}
 	vAssert(err != nil && tpl == nil, "load-time-fault-is-reported")
